@@ -314,3 +314,214 @@ def rand_adapt(rng, kinds, n, maxev=30, **kw):
                 return rng.randrange(40)
         cases.append(rand_adapt_history(rng, kind, rng.randrange(3, maxev), fresh, **kw))
     return cases
+
+
+# ---------------------------------------------------------------- ObservableVector (mode ovec)
+OVEC_ALPHA = ["push_back(7)", "push_front(8)", "pop_front", "pop_back", "insert(1,9)", "set(0,5)", "remove(0)",
+              "remove(3)", "truncate(1)", "clear", "append[1,2]"]
+
+
+def ovec_exhaustive(maxlen, caps, alpha=None):
+    """every sequence of <= maxlen direct operations (incl. an out-of-range one and the documented no-ops)
+    x start contents {[], [1,2,3]} x stream flavour x {poll after every op, drain at the end} x capacity"""
+    alpha = alpha or OVEC_ALPHA
+    cases = []
+    for cap in caps:
+        for n in range(1, maxlen + 1):
+            for seq in itertools.product(alpha, repeat=n):
+                for start in ("", "append[1,2,3] ; "):
+                    for fl in ("p", "b"):
+                        cases.append("cap=%d :: %ssub(%s) ; %s ; drain(0) ; dropvec ; drain(0)" % (
+                            cap, start, fl, " ; ".join(seq)))
+                        cases.append("cap=%d :: %ssub(%s) ; %s ; dropvec ; drain(0)" % (
+                            cap, start, fl, " ; drain(0) ; ".join(seq) + " ; drain(0)"))
+    return cases
+
+
+def ovec_lag_block(caps):
+    """k operations then poll, k around the (rounded) capacity, with a second subscriber created midway"""
+    cases = []
+    for cap in caps:
+        c2 = 1
+        while c2 < cap:
+            c2 *= 2
+        for k in range(0, c2 + 4):
+            ops = ["push_back(%d)" % i for i in range(k)]
+            for fl in ("p", "b"):
+                for tail in ("drain(0)", "poll(0) ; drain(0)", "dropvec ; drain(0)", "poll(0) ; dropvec ; drain(0)"):
+                    cases.append("cap=%d :: sub(%s) ; %s ; %s" % (cap, fl, " ; ".join(ops) if ops else "get", tail))
+                    mid = k // 2
+                    ops2 = ops[:mid] + ["sub(%s)" % fl] + ops[mid:]
+                    cases.append("cap=%d :: sub(%s) ; %s ; drain(1) ; %s" % (cap, fl, " ; ".join(ops2), tail))
+                # a transaction in the middle of the backlog (multi-diff batch)
+                txn = "tb ; t.push_back(50) ; t.push_front(51) ; t.pop_back ; tc"
+                cases.append("cap=%d :: sub(%s) ; %s ; %s ; poll(0) ; %s ; drain(0) ; dropvec ; drain(0)" % (
+                    cap, fl, txn, " ; ".join(ops) if ops else "get", "push_back(99)"))
+                cases.append("cap=%d :: sub(%s) ; %s ; poll(0) ; dropvec ; drain(0)" % (cap, fl, txn))
+    return cases
+
+
+TXN_ALPHA = ["t.push_back(7)", "t.push_front(8)", "t.pop_front", "t.pop_back", "t.insert(1,9)", "t.set(0,5)",
+             "t.remove(0)", "t.remove(5)", "t.truncate(1)", "t.clear", "t.append[1,2]", "t.rollback",
+             "t.each[s4,r]", "t.eset(0,6)", "t.eremove(1)", "dropsub(0)"]
+
+
+def ovec_txn_exhaustive(maxlen, alpha=None):
+    """every transaction body of <= maxlen operations, every way of ending it, 0/1/2 subscribers"""
+    alpha = alpha or TXN_ALPHA
+    cases = []
+    for n in range(0, maxlen + 1):
+        for body in itertools.product(alpha, repeat=n):
+            b = " ; ".join(body)
+            for nsub, subs in ((0, ""), (1, "sub(p) ; "), (2, "sub(p) ; sub(b) ; ")):
+                if nsub == 0 and "dropsub(0)" in body:
+                    continue
+                if body.count("dropsub(0)") > 1:
+                    continue
+                for end in ("tc", "td", "t.rollback ; td", "t.rollback ; tc", "t.get ; td"):
+                    drains = " ; ".join("drain(%d)" % k for k in range(nsub) if not (k == 0 and "dropsub(0)" in body))
+                    cases.append("cap=16 :: append[1,2,3] ; %stb%s ; %s ; get%s ; push_back(99)%s" % (
+                        subs, (" ; " + b) if b else "", end, (" ; " + drains) if drains else "",
+                        (" ; " + drains) if drains else ""))
+    return cases
+
+
+def ovec_traversal_exhaustive(maxlen):
+    """every decision sequence (keep / set / remove / set-then-remove / stop) over vectors of <= maxlen items,
+    directly and inside a transaction; plus every index 0..len+1 for every mutator and entry()"""
+    cases = []
+    decs = ["k", "s9", "r", "t9", "x"]
+    for n in range(0, maxlen + 1):
+        start = "append%s ; " % vec(list(range(1, n + 1))) if n else ""
+        for seq in itertools.product(decs, repeat=n):
+            e = "each[%s]" % ",".join(seq)
+            cases.append("cap=16 :: %ssub(p) ; %s ; get ; drain(0)" % (start, e))
+            cases.append("cap=16 :: %ssub(b) ; tb ; t.%s ; t.get ; tc ; get ; drain(0)" % (start, e))
+            cases.append("cap=16 :: %ssub(p) ; tb ; t.%s ; td ; get ; drain(0)" % (start, e))
+        for i in range(0, n + 3):
+            for m in ("insert(%d,9)" % i, "set(%d,9)" % i, "remove(%d)" % i, "truncate(%d)" % i,
+                      "eset(%d,9)" % i, "eremove(%d)" % i):
+                cases.append("cap=16 :: %ssub(p) ; %s ; get ; drain(0)" % (start, m))
+                cases.append("cap=16 :: %ssub(p) ; tb ; t.%s ; t.get ; tc ; get ; drain(0)" % (start, m))
+    return cases
+
+
+def ovec_random(rng, n, maxops=60, lagbias=False):
+    cases = []
+    for _ in range(n):
+        cap = rng.choice((1, 2, 3, 5, 16) if lagbias else (1, 2, 3, 4, 16, 16))
+        pollp = rng.choice((0.2, 0.4, 0.6)) if lagbias else rng.choice((0.5, 0.8, 1.0))
+        ops = []
+        length = 0
+        tlen = 0
+        nsubs = 0
+        live = []
+        in_txn = False
+        nops = rng.randrange(3, maxops)
+
+        def mut(ln):
+            # returns (text, new length); mostly valid
+            k = rng.randrange(13)
+            x = rng.randrange(30)
+            bad = rng.random() < 0.05
+            if k == 0:
+                a = [rng.randrange(30) for _ in range(rng.randrange(4))]
+                return "append" + vec(a), ln + len(a)
+            if k == 1:
+                return "clear", 0
+            if k == 2:
+                return "push_front(%d)" % x, ln + 1
+            if k in (3, 11, 12):
+                return "push_back(%d)" % x, ln + 1
+            if k == 4:
+                return "pop_front", max(0, ln - 1)
+            if k == 5:
+                return "pop_back", max(0, ln - 1)
+            if k == 6:
+                i = ln + 1 + rng.randrange(2) if bad else rng.randrange(ln + 1)
+                return "insert(%d,%d)" % (i, x), ln + (0 if i > ln else 1)
+            if k == 7:
+                i = ln + rng.randrange(2) if (bad or ln == 0) else rng.randrange(ln)
+                return "set(%d,%d)" % (i, x), ln
+            if k == 8:
+                i = ln + rng.randrange(2) if (bad or ln == 0) else rng.randrange(ln)
+                return "remove(%d)" % i, ln - (1 if i < ln else 0)
+            if k == 9:
+                t = rng.randrange(ln + 2)
+                return "truncate(%d)" % t, min(ln, t)
+            # entries
+            if ln == 0 or rng.random() < 0.5:
+                ds = [rng.choice(("k", "k", "s%d" % x, "r", "t%d" % x, "x")) for _ in range(rng.randrange(ln + 2))]
+                # the resulting length is computed by replaying the decisions
+                l2 = ln
+                idx = 0
+                for d in ds:
+                    if idx >= l2:
+                        break
+                    if d == "x":
+                        break
+                    if d in ("r",) or d.startswith("t"):
+                        l2 -= 1
+                    else:
+                        idx += 1
+                return "each[%s]" % ",".join(ds), l2
+            i = rng.randrange(ln)
+            if rng.random() < 0.5:
+                return "eset(%d,%d)" % (i, x), ln
+            return "eremove(%d)" % i, ln - 1
+
+        for _ in range(nops):
+            r = rng.random()
+            if in_txn:
+                if r < 0.6:
+                    t, tlen = mut(tlen)
+                    ops.append("t." + t)
+                elif r < 0.68:
+                    ops.append("t.rollback")
+                    tlen = length
+                elif r < 0.72:
+                    ops.append("t.get")
+                elif r < 0.8 and live:
+                    ops.append("poll(%d)" % rng.choice(live))
+                elif r < 0.84 and live:
+                    k = rng.choice(live)
+                    live.remove(k)
+                    ops.append("dropsub(%d)" % k)
+                elif r < 0.94:
+                    ops.append("tc")
+                    length = tlen
+                    in_txn = False
+                else:
+                    ops.append("td")
+                    in_txn = False
+            else:
+                if r < 0.5:
+                    t, length = mut(length)
+                    ops.append(t)
+                elif r < 0.58 and nsubs < 4:
+                    ops.append("sub(%s)" % rng.choice("pb"))
+                    live.append(nsubs)
+                    nsubs += 1
+                elif r < 0.58 + 0.25 * pollp and live:
+                    ops.append(rng.choice(("poll(%d)", "drain(%d)")) % rng.choice(live))
+                elif r < 0.9 and live and rng.random() < 0.15:
+                    k = rng.choice(live)
+                    live.remove(k)
+                    ops.append("dropsub(%d)" % k)
+                elif r < 0.97:
+                    ops.append("tb")
+                    in_txn = True
+                    tlen = length
+                else:
+                    ops.append("get")
+        if in_txn:
+            ops.append(rng.choice(("tc", "td")))
+        for k in live:
+            if rng.random() < 0.7:
+                ops.append("drain(%d)" % k)
+        if rng.random() < 0.7:
+            ops.append("dropvec")
+            for k in live:
+                ops.append("drain(%d)" % k)
+        cases.append("cap=%d :: %s" % (cap, " ; ".join(ops)))
+    return cases
